@@ -802,7 +802,7 @@ Result run_one(const Scen &s, uint64_t k, int mode, long residual_ok = 0) {
 // "the call returns normally": a scenario takes milliseconds; one that has burnt NO_RETURN_CPU_S seconds of this process's own CPU time
 // (ITIMER_VIRTUAL: load and sleeping do not count) is inside a library call that spins instead of returning, e.g. on a lock that a failed
 // call left held.  One-sided: a call that blocks without burning CPU still ends as "inconclusive" at the wall-clock watchdog.
-const int NO_RETURN_CPU_S = 20;
+const int NO_RETURN_CPU_S = 10;
 int g_nr_fd = -1; char g_nr_scen[96];
 void no_return_cb(int) {
   char msg[400];
@@ -825,7 +825,7 @@ Result run_forked(const Scen &s, uint64_t k, int mode, string *child_out, long r
     prctl(PR_SET_PDEATHSIG, SIGKILL);
     close(pfd[0]);
     dup2(pfd[1], 2);
-    alarm(60);
+    alarm(300);   // wall-clock watchdog (inconclusive): far above the CPU budget so that on a loaded machine the CPU-time verdict comes first
     if (k > 0) arm_no_return(pfd[1], s.name);
     g_target_window = target_window;
     Result r = run_one(s, k, mode, residual_ok);
